@@ -343,6 +343,7 @@ async def run_workers(sc: dict, subs: dict) -> dict:
             r.actor(mk(), name="act", queue="q" + t, converter=BasicConverter)
             workers[t] = Worker(routers=[r], handle_signals=[], _connection=conn)
             await conn.message_broker.queue_declare._verif_orig("q" + t)
+        setup_errors: list = []
         for t in ("A", "B"):
             for i, j in enumerate(sc[t]):
                 job = Job("act", queue="q" + t, id_=j["id"], args={"kind": j["kind"], "n": i},
@@ -350,7 +351,10 @@ async def run_workers(sc: dict, subs: dict) -> dict:
                           use_args_bucketer=j["kind"] == "argsbucket",
                           store_result=j["kind"] == "result", args_id=("args-" + j["id"]) if j["kind"] == "argsbucket" else None, result_id="res-" + j["id"],
                           _connection=conns[t])
-                await job.enqueue()
+                try:
+                    await job.enqueue()
+                except Exception as e:  # noqa: BLE001
+                    setup_errors.append([j["id"], repr(e)])
         n_setup = len(tr.top)
         tasks = [asyncio.ensure_future(workers[t].run()) for t in sc["order"]]
         await asyncio.sleep(40)
@@ -359,7 +363,7 @@ async def run_workers(sc: dict, subs: dict) -> dict:
         await asyncio.gather(*tasks, return_exceptions=True)
         errors = [repr(t.exception()) for t in tasks if t.done() and not t.cancelled() and t.exception() is not None]
         return {"tracer": tr, "ran": sorted(ran), "state": {t: state_of(c, strip_time=True, sort_lists=True) for t, c in conns.items()},   # (which job finishes first is timing)
-                "errors": errors, "counter": counter, "n_setup": n_setup}
+                "errors": errors, "counter": counter, "n_setup": n_setup, "setup_errors": setup_errors}
     finally:
         _abc.middleware_wrapper = orig_mw
         ar.fn = ar_orig_fn
@@ -459,6 +463,9 @@ def one_workers(arg):
     for k in o["counter"]:
         res.dist["noise:" + k] += o["counter"][k]
     judge(o["tracer"], model, res, case, True)
+    if o["setup_errors"] != base["setup_errors"]:
+        res.bad("impl", "enqueueing a job raised with subscribers but not without (or the reverse)", case=case,
+                observed=o["setup_errors"], expected=base["setup_errors"])
     if o["errors"] or base["errors"]:
         res.bad("impl", "a worker died", case=case, observed=o["errors"] or base["errors"])
     if o["ran"] != base["ran"]:
